@@ -380,6 +380,22 @@ def run(ctx):
                           % (adt.rsplit("::", 1)[1], fld, F.fmt_expr(e)), site=isect.where(bi))
     ctx.floor("C08-R1", "bound fields wired in Schema::intersect", len(seen), 10)
 
+    # an absent bound is `None` = unbounded: `Ord::min` on Options orders None *below* Some, so `a.min(b)` DROPS an upper bound that
+    # only one side has (opt_min is the right combinator); no JSON-schema code may take Ord::min / Iterator::min of Option bounds
+    n_optmin = 0
+    for i, b in sorted(P.bodies.items()):
+        if not P._is_code(b) or not i.startswith(("llguidance::json::", "<llguidance::json::")):
+            continue
+        for bi, t in b.calls():
+            full = t["f"].get("full") or ""
+            d = t["f"].get("def", "")
+            if d.rsplit("::", 1)[-1] == "min" and "core::option::Option<" in full.split(" as ")[0] and "cmp::Ord" in full:
+                n_optmin += 1
+                ctx.violation("C08-R1", "option-min-drops-bound:%s" % i.replace("llguidance::json::", ""),
+                              "%s combines two optional bounds with Ord::min on Option (None < Some): a bound present on one side only is dropped" % i, site=b.where(bi))
+    if n_optmin == 0:
+        ctx.ok("C08-R1", "option-min-census", "no Ord::min over Option-typed bounds in the JSON-schema code")
+
     # ------------------------------------------------------------------ R2 order of normalisation / arguments
     cnb = NUM + "check_number_bounds"
     ji = ctx.body(JC + "::json_int")
